@@ -721,6 +721,27 @@ def m_seq_binary_search(engine, st, fr, callee, args, ops):
     key = _deref(engine, st, args[1])
     vals = [z3.simplify(x) for x in items[lo:hi]]
     ks = z3.simplify(key)
+    if z3.is_expr(ks) and z3.is_bv(ks) and not z3.is_bv_value(ks) and all(z3.is_bv_value(v) for v in vals):
+        # symbolic key, concrete contents
+        m_ = re.search(r"\[(\w+)\]", callee)
+        signed = INT_TYPES.get(m_.group(1), (0, False))[1] if m_ else False
+        xs = [(v.as_signed_long() if signed else v.as_long()) for v in vals]
+        lt = (lambda a, b: a < b) if signed else z3.ULT
+        if all(xs[i] < xs[i + 1] for i in range(len(xs) - 1)):
+            alts = [(ks == v, Adt("Result", "Ok", [z3.BitVecVal(i, 64)])) for i, v in enumerate(vals)]
+            for i in range(len(vals) + 1):
+                c = []
+                if i > 0:
+                    c.append(lt(vals[i - 1], ks))
+                if i < len(vals):
+                    c.append(lt(ks, vals[i]))
+                alts.append((z3.And(*c) if c else True, Adt("Result", "Err", [z3.BitVecVal(i, 64)])))
+            return Fork(alts)
+        # std: "if the slice is not sorted, the returned result is unspecified and meaningless" -> any answer is possible; a check
+        # that depends on it finds a candidate and must confirm it on the compiled crate
+        st.events.append(("unspecified", "binary_search on a slice that is not sorted"))
+        i_ok, i_err = z3.BitVec(engine.fresh_name("bsearch_ok"), 64), z3.BitVec(engine.fresh_name("bsearch_err"), 64)
+        return Fork([(z3.ULT(i_ok, len(vals)), Adt("Result", "Ok", [i_ok])), (z3.ULE(i_err, len(vals)), Adt("Result", "Err", [i_err]))])
     if not (z3.is_bv_value(ks) and all(z3.is_bv_value(v) for v in vals)):
         raise Unsupported("binary_search on symbolic data")
     xs = [v.as_long() for v in vals]
@@ -731,6 +752,25 @@ def m_seq_binary_search(engine, st, fr, callee, args, ops):
         raise Unsupported("binary_search with several matches")
     ins = sum(1 for x in xs if x < k)
     return Adt("Result", "Err", [z3.BitVecVal(ins, 64)])
+
+
+def m_range_next(engine, st, fr, callee, args, ops):
+    """`<Range<int> as Iterator>::next` with possibly symbolic bounds: Some(start) and start += 1 while start < end, else None
+    (the number of iterations is bounded by the engine's loop bound; a longer run ends the path as `loop_bound`, never as a verdict)"""
+    r = args[0]
+    rng = sym._deref_arg(engine, st, r)
+    if not (isinstance(rng, Adt) and len(rng.fields) == 2 and all(z3.is_expr(f) and z3.is_bv(f) for f in rng.fields)):
+        raise Unsupported("next on %r" % (rng,))
+    lo, hi = rng.fields
+    m_ = re.search(r"Range<(\w+)>", callee)
+    signed = INT_TYPES.get(m_.group(1), (0, False))[1] if m_ else False
+    more = z3.simplify((lo < hi) if signed else z3.ULT(lo, hi))
+    adv = sym._SetPlace(r, Adt(rng.ty, rng.variant, [z3.simplify(lo + 1), hi]), some(lo))
+    if z3.is_true(more):
+        return adv
+    if z3.is_false(more):
+        return none()
+    return Fork([(more, adv), (z3.Not(more), none())])
 
 
 # ------------------------------------------------------------------ iterator adapters (CIter[Arr(items)])
@@ -998,7 +1038,7 @@ def m_iter_mut_for(engine, st, fr, callee, args, ops):
     return citer(elem_refs(engine, st, args[0]))
 
 
-ITER = r"(std::slice::Iter(Mut)?<'_, .*>|std::vec::IntoIter<.*>|(std::iter::|core::iter::)?(Enumerate|Rev|Skip|Take|StepBy|Chain|Zip|Copied|Cloned|Map|Filter|TakeWhile|SkipWhile)<.*>|(std::slice::)?Chunks(Exact)?<'_, .*>|(std::slice::)?Windows<'_, .*>)"
+ITER = r"(std::slice::Iter(Mut)?<'_, .*>|std::vec::IntoIter<.*>|(std|core)::array::IntoIter<.*>|(std::iter::|core::iter::)?(Enumerate|Rev|Skip|Take|StepBy|Chain|Zip|Copied|Cloned|Map|Filter|TakeWhile|SkipWhile)<.*>|(std::slice::)?Chunks(Exact)?<'_, .*>|(std::slice::)?Windows<'_, .*>)"
 
 MODELS = [
     # integers
@@ -1012,6 +1052,13 @@ MODELS = [
     (r"^(std::result::)?Result::<.*>::(is_ok|is_err|ok|err|unwrap_or|unwrap_or_else|unwrap_or_default|map|map_err|and_then|or_else|and|or|map_or|as_ref)(::<.*>)?$", m_result_method),
     # mem
     (r"^(std|core)::mem::swap::<", m_mem_swap),
+    # Cell<T> is transparent: the cell IS its content; get copies it out, set / replace write through the shared reference
+    (r"^(std::cell::|core::cell::)?Cell::<.*>::new$", lambda e, s_, f, c, a, o: a[0]),
+    (r"^(std::cell::|core::cell::)?Cell::<.*>::get$", lambda e, s_, f, c, a, o: sym._deref_arg(e, s_, a[0])),
+    (r"^(std::cell::|core::cell::)?Cell::<.*>::(set|replace)$", lambda e, s_, f, c, a, o: (lambda old: UNIT if c.endswith("::set") else old)(m_mem_replace(e, s_, f, c, a, o))),
+    (r"^(std::cell::|core::cell::)?Cell::<.*>::take$", lambda e, s_, f, c, a, o: m_mem_take(e, s_, f, c, a, o)),
+    (r"^<(std::ops::|core::ops::)?Range<\w+> as IntoIterator>::into_iter$", m_identity),
+    (r"^<(std::ops::|core::ops::)?Range<\w+> as Iterator>::next$", m_range_next),
     (r"^(std|core)::mem::replace::<", m_mem_replace),
     (r"^(std|core)::mem::take::<", m_mem_take),
     # sequences
@@ -1044,7 +1091,7 @@ MODELS = [
     (r"^Vec::<.*>::retain::<", m_vec_retain),
     # iterators
     (r"^core::slice::<impl \[.*\]>::(iter|iter_mut)$", m_iter),
-    (r"^<(&(mut )?Vec<.*>|&(mut )?\[.*\]|Vec<.*>) as IntoIterator>::into_iter$", m_into_iter_vec),
+    (r"^<(&(mut )?Vec<.*>|&(mut )?\[.*\]|Vec<.*>|\[.*; \d+\]) as IntoIterator>::into_iter$", m_into_iter_vec),
     (r"^<" + ITER + r" as IntoIterator>::into_iter$", m_identity),
     (r"^<" + ITER + r" as Iterator>::enumerate$", m_enumerate),
     (r"^<" + ITER + r" as Iterator>::rev$", m_rev),
